@@ -96,7 +96,7 @@ theorem mgrDone_neutral (k : MK) : ((mgrDone σ t k).th t).pc.neutral = true := 
     | exact sendDropTail_neutral _ t
     | neutral_tac
 theorem freeEnd_neutral (k : MK) : ((freeEnd σ t k).th t).pc.neutral = true := by
-  unfold freeEnd; split <;> exact mgrDone_neutral _ t _
+  unfold freeEnd; exact mgrDone_neutral _ t _
 theorem freeTail_neutral (k : MK) : ((freeTail σ t k).th t).pc.neutral = true := by
   unfold freeTail; repeat' split
   all_goals first | exact mgrDone_neutral _ t _ | neutral_tac
